@@ -24,7 +24,11 @@ use kanidmd_lib::entry::{Entry, EntryCommitted, EntryInit, EntryNew, EntryReduce
 type EntrySealedCommitted = Entry<EntrySealed, EntryCommitted>;
 type EntryReducedCommitted = Entry<EntryReduced, EntryCommitted>;
 use kanidmd_lib::filter::{f_pres, Filter};
+use kanidm_proto::internal::{ApiToken, ApiTokenPurpose};
+use kanidmd_lib::idm::ldap::{LdapBoundToken, LdapResponseState, LdapServer, LdapSession};
 use kanidmd_lib::idm::server::IdmServer;
+use ldap3_proto::proto::{LdapFilter, LdapOp, LdapResultCode, LdapSearchScope};
+use ldap3_proto::simple::{CompareRequest, SearchRequest as LSearchRequest, ServerOps};
 use kanidmd_lib::prelude::*;
 use kanidmd_lib::testkit::{setup_idm_test, TestConfiguration};
 use kanidmd_lib::value::{PartialValue, Value};
@@ -565,7 +569,7 @@ async fn build_world(r: &mut Rng) -> World {
     for i in 0..sh.ng {
         let mut e = new_entry(&[EntryClass::Object, EntryClass::Group], &format!("c23g{i}"), gid(i));
         for u in 0..sh.nu {
-            if r.chance(1, 3) {
+            if r.chance(2, 5) {
                 e.add_ava(Attribute::Member, Value::Refer(uid(u)));
             }
         }
@@ -597,6 +601,10 @@ async fn build_world(r: &mut Rng) -> World {
                 e.add_ava(Attribute::OAuth2RsScopeMap, Value::new_oauthscopemap(gid(g), ["openid".to_string()].into_iter().collect()).unwrap());
             }
         }
+        if r.chance(1, 3) {
+            // a scope for the dynamic group every account (the anonymous account included) is in
+            e.add_ava(Attribute::OAuth2RsScopeMap, Value::new_oauthscopemap(UUID_IDM_ALL_ACCOUNTS, ["openid".to_string()].into_iter().collect()).unwrap());
+        }
         if r.chance(1, 2) {
             e.add_ava(Attribute::EntryManagedBy, Value::Refer(uid(r.below(sh.nu as u64) as usize)));
         }
@@ -609,7 +617,7 @@ async fn build_world(r: &mut Rng) -> World {
             appid(i),
         );
         e.add_ava(Attribute::DisplayName, Value::new_utf8s(&format!("C23 app {i}")));
-        e.add_ava(Attribute::LinkedGroup, Value::Refer(gid(r.below(sh.ng as u64) as usize)));
+        e.add_ava(Attribute::LinkedGroup, Value::Refer(if r.chance(1, 4) { UUID_IDM_ALL_ACCOUNTS } else { gid(r.below(sh.ng as u64) as usize) }));
         entries.push(e);
     }
     // victims: deleted later (recycled / tombstoned)
@@ -640,10 +648,29 @@ async fn build_world(r: &mut Rng) -> World {
         }
         if !r.chance(1, 12) {
             e.add_ava(Attribute::Class, EntryClass::AccessControlTargetScope.to_value());
-            let f = rand_filter(r, &sh, 2, false);
+            let f = if r.chance(1, 2) {
+                let c = |r: &mut Rng| PF::Eq("class".into(), r.pick(&["person", "group", "account", "service_account", "oauth2_resource_server", "application", "sync_account", "object"]).to_string());
+                match r.below(4) {
+                    0 | 1 => c(r),
+                    2 => PF::Or(vec![c(r), c(r)]),
+                    _ => PF::And(vec![c(r), PF::AndNot(Box::new(rand_leaf(r, &sh)))]),
+                }
+            } else {
+                rand_filter(r, &sh, 2, false)
+            };
             e.add_ava(Attribute::AcpTargetScope, Value::JsonFilt(f));
         }
-        for a in rand_attrs(r, 1, 6) {
+        let mut acp_attrs: BTreeSet<String> = rand_attrs(r, 1, 5).into_iter().collect();
+        if r.chance(2, 3) {
+            acp_attrs.insert("class".into());
+        }
+        if r.chance(1, 2) {
+            acp_attrs.insert("name".into());
+        }
+        if r.chance(1, 3) {
+            acp_attrs.insert("uuid".into());
+        }
+        for a in acp_attrs {
             e.add_ava(Attribute::AcpSearchAttr, Value::new_iutf8(&a));
         }
         if r.chance(1, 8) {
@@ -748,7 +775,7 @@ struct Query {
 }
 
 fn rand_query(r: &mut Rng, w: &World) -> Query {
-    let id = match r.below(20) {
+    let id = match r.below(28) {
         0 => IdSpec::Internal(*r.pick(&["system", "migration", "accountRequest", "messageQueue"])),
         1 => IdSpec::Synch(syncid().as_u128()),
         2 | 3 => IdSpec::User(ANON, Scope::Ro),
@@ -767,7 +794,20 @@ fn rand_query(r: &mut Rng, w: &World) -> Query {
         _ => "exists",
     };
     let attrs = if kind == "ext-attrs" || (kind == "ext-recycle" && r.chance(1, 2)) { Some(rand_attrs(r, 1, 4)) } else { None };
-    Query { id, kind, attrs, filter: rand_filter(r, &w.shape, 2, true) }
+    let filter = if r.chance(2, 5) {
+        let c = |r: &mut Rng| PF::Eq("class".into(), r.pick(&["person", "group", "account", "service_account", "oauth2_resource_server", "application"]).to_string());
+        match r.below(6) {
+            0 => c(r),
+            1 => PF::Pres(r.pick(&["class", "name", "uuid", "displayname", "memberof"]).to_string()),
+            2 => PF::And(vec![c(r), PF::Pres(r.pick(ATTR_POOL).to_string())]),
+            3 => PF::Or(vec![c(r), rand_leaf(r, &w.shape)]),
+            4 => PF::And(vec![c(r), PF::AndNot(Box::new(rand_leaf(r, &w.shape)))]),
+            _ => PF::Cnt("name".into(), "c23".into()),
+        }
+    } else {
+        rand_filter(r, &w.shape, 2, true)
+    };
+    Query { id, kind, attrs, filter }
 }
 
 fn make_ident(rd: &mut QueryServerReadTransaction, spec: &IdSpec) -> Option<Ident> {
@@ -973,8 +1013,12 @@ fn oracle(w: &World, id: &Ident, q: &Query, fc: &Fc, real: &Out, ctx: &CaseCtx, 
     filter_attrs(fc, &mut fattrs);
     let recycle = q.kind == "ext-recycle";
     let raw = q.kind == "ext-raw";
+    let mut failed_classes: BTreeSet<String> = BTreeSet::new();
     let mut fail = |class: &str, expected: String, observed: String| {
-        rep.fail(Failure { kind: "impl-vs-oracle".into(), class: class.into(), input: ctx.input(id), expected, observed });
+        // one failure per (query, class)
+        if failed_classes.insert(class.to_string()) {
+            rep.fail(Failure { kind: "impl-vs-oracle".into(), class: class.into(), input: ctx.input(id), expected, observed });
+        }
     };
     // the filter as executed by the wrapper, per the property text: hidden entries only in recycle-bin searches
     let revealed: Vec<u128> = match real {
@@ -1103,7 +1147,14 @@ fn classify_model_diff(_q: &Query) -> String {
     "unclassified".into()
 }
 
-async fn run_world(seed: u64, wi: u64, nq: usize, only: Option<usize>, drv: &mut Driver, at: &mut Atoms, rep: &mut Report) {
+#[derive(Clone, Copy, PartialEq)]
+enum Sel {
+    All,
+    Main(usize),
+    Ldap(usize),
+}
+
+async fn run_world(seed: u64, wi: u64, nq: usize, nl: usize, sel: Sel, drv: &mut Driver, at: &mut Atoms, rep: &mut Report) {
     let mut r = Rng::for_case(seed, wi);
     let mut w = build_world(&mut r).await;
     for n in std::mem::take(&mut w.notes) {
@@ -1127,10 +1178,10 @@ async fn run_world(seed: u64, wi: u64, nq: usize, only: Option<usize>, drv: &mut
     let queries: Vec<Query> = (0..nq).map(|_| rand_query(&mut r, &w)).collect();
     let mut rd = w.idms.proxy_read().await.expect("read txn");
     for (qi, q) in queries.iter().enumerate() {
-        if let Some(o) = only {
-            if o != qi {
-                continue;
-            }
+        match sel {
+            Sel::All => {}
+            Sel::Main(o) if o == qi => {}
+            _ => continue,
         }
         let id = match make_ident(&mut rd.qs_read, &q.id) {
             Some(id) => id,
@@ -1189,6 +1240,610 @@ async fn run_world(seed: u64, wi: u64, nq: usize, only: Option<usize>, drv: &mut
         }
         rep.case(key);
     }
+    drop(rd);
+    // ---- LDAP gateway ----
+    let ldaps = LdapServer::new(&w.idms).await.expect("ldap server");
+    let mut dn_of: BTreeMap<String, u128> = BTreeMap::new();
+    {
+        let mut rd = w.idms.proxy_read().await.expect("read txn");
+        for e in &w.db {
+            if let Ok(rdn) = rd.qs_read.uuid_to_rdn(Uuid::from_u128(e.uuid)) {
+                dn_of.insert(format!("{rdn},{BASEDN}"), e.uuid);
+            }
+        }
+    }
+    let mut lr = Rng::for_case(seed ^ 0x1DA9_1DA9, wi);
+    let lqs: Vec<LQuery> = (0..nl).map(|_| rand_lquery(&mut lr, &w)).collect();
+    for (li, q) in lqs.iter().enumerate() {
+        match sel {
+            Sel::All => {}
+            Sel::Ldap(o) if o == li => {}
+            _ => continue,
+        }
+        run_ldap_query(&w, &ldaps, &dn_of, seed, wi, li, q, drv, at, rep).await;
+    }
+}
+
+// ------------------------------------------------------------------------------------------------
+// LDAP gateway: search and compare through LdapServer::do_op
+// ------------------------------------------------------------------------------------------------
+
+#[derive(Clone, Debug)]
+enum LId {
+    Anon,
+    Token(u128, Scope),
+}
+
+#[derive(Clone, Debug)]
+enum LOp {
+    Search { base: String, scope: LdapSearchScope, filter: LdapFilter, attrs: Vec<String> },
+    Compare { entry: String, atype: String, val: String },
+}
+
+#[derive(Clone, Debug)]
+struct LQuery {
+    id: LId,
+    op: LOp,
+}
+
+const BASEDN: &str = "dc=example,dc=com";
+const DOMAIN_INFO: &str = "00000000-0000-0000-0000-ffffff000025";
+
+/// LDAP name ↦ kanidm attribute (kanidm's documented LDAP attribute mapping).
+fn vattr(a: &str) -> Option<&'static str> {
+    Some(match a {
+        "cn" | "uid" | "entrydn" | "dn" => "name",
+        "gecos" => "displayname",
+        "email" | "emailaddress" | "emailalternative" | "emailprimary" | "mail;alternative" | "mail;primary" => "mail",
+        "entryuuid" => "uuid",
+        "keys" | "sshpublickey" => "ssh_publickey",
+        "objectclass" => "class",
+        "uidnumber" => "gidnumber",
+        "homedirectory" => "uuid",
+        _ => return None,
+    })
+}
+
+const ALL_VATTRS: &[&str] = &[
+    "cn", "email", "emailaddress", "dn", "emailalternative", "emailprimary", "entrydn", "entryuuid", "keys",
+    "mail;alternative", "mail;primary", "objectclass", "sshpublickey", "uidnumber", "uid", "gecos", "homedirectory",
+    "pwd_changed_time",
+];
+
+fn kani_attr(a: &str) -> String {
+    let l = a.to_lowercase();
+    vattr(&l).map(|s| s.to_string()).unwrap_or(l)
+}
+
+fn lf_to_fc(qs: &mut QueryServerReadTransaction, f: &LdapFilter) -> Result<Fc, String> {
+    Ok(match f {
+        LdapFilter::And(l) => Fc::And(l.iter().map(|g| lf_to_fc(qs, g)).collect::<Result<_, _>>()?),
+        LdapFilter::Or(l) => Fc::Or(l.iter().map(|g| lf_to_fc(qs, g)).collect::<Result<_, _>>()?),
+        LdapFilter::Not(g) => Fc::AndNot(Box::new(lf_to_fc(qs, g)?)),
+        LdapFilter::Equality(a, v) => {
+            let k = kani_attr(a);
+            Fc::Eq(k.clone(), pv_to_v(&qs.clone_partialvalue(&Attribute::from(k.as_str()), v).map_err(|e| format!("{e:?}"))?))
+        }
+        LdapFilter::Present(a) => Fc::Pres(kani_attr(a)),
+        other => return Err(format!("unsupported {other:?}")),
+    })
+}
+
+fn class_exclusion() -> LdapFilter {
+    LdapFilter::Not(Box::new(LdapFilter::Or(vec![
+        LdapFilter::Equality("class".into(), "classtype".into()),
+        LdapFilter::Equality("class".into(), "attributetype".into()),
+        LdapFilter::Equality("class".into(), "access_control_profile".into()),
+    ])))
+}
+
+/// `attr=val,<basedn>` | `<basedn>` ↦ Some(Some((attr,val))) | Some(None); anything else None
+fn parse_dn(dn: &str) -> Option<Option<(String, String)>> {
+    if dn == BASEDN {
+        return Some(None);
+    }
+    let rest = dn.strip_suffix(&format!(",{BASEDN}"))?;
+    let (a, v) = rest.split_once('=')?;
+    if a.is_empty() || v.is_empty() || a.contains(',') || v.contains(',') || v.contains('=') {
+        return None;
+    }
+    Some(Some((a.to_string(), v.to_string())))
+}
+
+/// What kanidm's LDAP gateway documents it turns a search into: the kanidm filter, the requested
+/// kanidm attributes, the LDAP names to answer with, and whether all attributes were asked for.
+struct LPlan {
+    filter: Option<LdapFilter>, // None: answers "success, no entries" without searching
+    k_attrs: Option<Vec<String>>,
+    l_attrs: Vec<String>,
+    all_attrs: bool,
+}
+
+fn plan_search(base: &str, scope: &LdapSearchScope, filter: &LdapFilter, attrs: &[String]) -> Result<LPlan, String> {
+    let req_dn = parse_dn(base).ok_or("invalid basedn")?;
+    let ext = match (scope, req_dn) {
+        (LdapSearchScope::Children, Some(_)) | (LdapSearchScope::OneLevel, Some(_)) => {
+            return Ok(LPlan { filter: None, k_attrs: None, l_attrs: vec![], all_attrs: false })
+        }
+        (LdapSearchScope::Children, None) | (LdapSearchScope::OneLevel, None) => {
+            Some(LdapFilter::Not(Box::new(LdapFilter::Equality("uuid".into(), DOMAIN_INFO.into()))))
+        }
+        (LdapSearchScope::Base, Some((a, v))) | (LdapSearchScope::Subtree, Some((a, v))) => Some(LdapFilter::Equality(a, v)),
+        (LdapSearchScope::Base, None) => Some(LdapFilter::Equality("uuid".into(), DOMAIN_INFO.into())),
+        (LdapSearchScope::Subtree, None) => None,
+    };
+    let mut no_attrs = false;
+    let mut all_attrs = false;
+    let mut all_op = false;
+    if attrs.is_empty() {
+        all_attrs = true;
+    } else {
+        for a in attrs {
+            if a == "*" {
+                all_attrs = true;
+            } else if a == "+" {
+                all_attrs = true;
+                all_op = true;
+            } else if a == "1.1" && attrs.len() == 1 {
+                no_attrs = true;
+            }
+        }
+    }
+    let (k_attrs, mut l_attrs): (Option<Vec<String>>, Vec<String>) = if no_attrs {
+        (None, vec![])
+    } else if all_op {
+        (None, ALL_VATTRS.iter().map(|s| s.to_string()).collect())
+    } else if all_attrs {
+        (None, attrs.iter().map(|a| a.to_lowercase()).filter(|a| vattr(a).is_some()).collect())
+    } else {
+        let req: Vec<String> = attrs.iter().filter(|a| *a != "*" && *a != "+" && *a != "1.1").map(|a| a.to_lowercase()).collect();
+        let mut k: Vec<String> = req.iter().map(|a| vattr(a).map(|s| s.to_string()).unwrap_or(a.clone())).collect();
+        k.sort();
+        k.dedup();
+        (Some(k), req)
+    };
+    l_attrs.sort();
+    l_attrs.dedup();
+    let full = match ext {
+        Some(e) => LdapFilter::And(vec![filter.clone(), e, class_exclusion()]),
+        None => LdapFilter::And(vec![filter.clone(), class_exclusion()]),
+    };
+    Ok(LPlan { filter: Some(full), k_attrs, l_attrs, all_attrs })
+}
+
+fn rand_lfilter(r: &mut Rng, sh: &Shape, depth: u32) -> LdapFilter {
+    let leaf = |r: &mut Rng| match r.below(9) {
+        0 | 1 => LdapFilter::Equality(r.pick(&["class", "objectclass"]).to_string(), r.pick(CLASS_POOL).to_string()),
+        2 => LdapFilter::Equality(r.pick(&["name", "cn", "uid"]).to_string(), format!("c23u{}", r.below(sh.nu as u64))),
+        3 => LdapFilter::Equality("name".into(), format!("c23g{}", r.below(sh.ng as u64))),
+        4 => LdapFilter::Equality(r.pick(&["uuid", "entryuuid"]).to_string(), rand_ref(r, sh).to_string()),
+        5 => LdapFilter::Equality("memberof".into(), gid(r.below(sh.ng as u64) as usize).to_string()),
+        6 => LdapFilter::Present(r.pick(&["class", "objectclass", "name", "uuid", "displayname", "gecos", "memberof", "mail", "description", "entry_managed_by", "spn"]).to_string()),
+        7 => LdapFilter::Equality("entry_managed_by".into(), rand_ref(r, sh).to_string()),
+        _ => LdapFilter::Present("class".into()),
+    };
+    if depth == 0 || r.chance(1, 2) {
+        return leaf(r);
+    }
+    match r.below(5) {
+        0 | 1 => LdapFilter::And((0..r.range(1, 3)).map(|_| rand_lfilter(r, sh, depth - 1)).collect()),
+        2 | 3 => LdapFilter::Or((0..r.range(1, 3)).map(|_| rand_lfilter(r, sh, depth - 1)).collect()),
+        // a NOT always next to a positive term (D1: unguarded NOT is a known backend defect, C01)
+        _ => LdapFilter::And(vec![rand_lfilter(r, sh, depth - 1), LdapFilter::Not(Box::new(rand_lfilter(r, sh, depth - 1)))]),
+    }
+}
+
+const LDAP_ATTR_POOL: &[&str] = &[
+    "name", "cn", "uid", "objectclass", "class", "uuid", "entryuuid", "homedirectory", "dn", "entrydn", "displayname",
+    "gecos", "memberof", "mail", "emailprimary", "spn", "description", "member", "entry_managed_by", "uidnumber",
+    "oauth2_rs_scope_map", "linked_group", "sync_credential_portal", "DisplayName",
+];
+
+fn rand_lquery(r: &mut Rng, w: &World) -> LQuery {
+    let sh = &w.shape;
+    let id = match r.below(6) {
+        0 | 1 => LId::Anon,
+        _ => LId::Token(*r.pick(&w.users), match r.below(8) { 0 => Scope::Sync, 1..=4 => Scope::Ro, _ => Scope::Rw }),
+    };
+    let some_dn = |r: &mut Rng| match r.below(4) {
+        0 => format!("name=c23u{},{BASEDN}", r.below(sh.nu as u64)),
+        1 => format!("name=c23g{},{BASEDN}", r.below(sh.ng as u64)),
+        2 => format!("uuid={},{BASEDN}", rand_ref(r, sh)),
+        _ => format!("spn=c23u{}@example.com,{BASEDN}", r.below(sh.nu as u64)),
+    };
+    if r.chance(1, 4) {
+        let (atype, val) = match r.below(6) {
+            0 => ("class".to_string(), r.pick(CLASS_POOL).to_string()),
+            1 => ("objectclass".to_string(), r.pick(CLASS_POOL).to_string()),
+            2 => ("memberof".to_string(), gid(r.below(sh.ng as u64) as usize).to_string()),
+            3 => ("displayname".to_string(), format!("C23 u{}", r.below(sh.nu as u64))),
+            4 => ("entry_managed_by".to_string(), rand_ref(r, sh).to_string()),
+            _ => ("name".to_string(), format!("c23u{}", r.below(sh.nu as u64))),
+        };
+        return LQuery { id, op: LOp::Compare { entry: some_dn(r), atype, val } };
+    }
+    let (base, scope) = match r.below(10) {
+        0..=5 => (BASEDN.to_string(), LdapSearchScope::Subtree),
+        6 => (BASEDN.to_string(), if r.chance(1, 2) { LdapSearchScope::OneLevel } else { LdapSearchScope::Children }),
+        7 => (some_dn(r), if r.chance(1, 2) { LdapSearchScope::Base } else { LdapSearchScope::Subtree }),
+        8 => (BASEDN.to_string(), LdapSearchScope::Base),
+        _ => (some_dn(r), LdapSearchScope::OneLevel),
+    };
+    let attrs: Vec<String> = match r.below(8) {
+        0 => vec![],
+        1 => vec!["*".into()],
+        2 => vec!["+".into()],
+        3 => vec!["1.1".into()],
+        4 => vec!["*".into(), r.pick(LDAP_ATTR_POOL).to_string()],
+        _ => (0..r.range(1, 4)).map(|_| r.pick(LDAP_ATTR_POOL).to_string()).collect(),
+    };
+    LQuery { id, op: LOp::Search { base, scope, filter: rand_lfilter(r, sh, 2), attrs } }
+}
+
+fn lquery_json(q: &LQuery) -> J {
+    match &q.op {
+        LOp::Search { base, scope, filter, attrs } => json!({"ldap": "search", "id": format!("{:?}", q.id), "base": base, "scope": format!("{scope:?}"), "filter": format!("{filter:?}"), "attrs": attrs}),
+        LOp::Compare { entry, atype, val } => json!({"ldap": "compare", "id": format!("{:?}", q.id), "entry": entry, "atype": atype, "val": val}),
+    }
+}
+
+/// Canonical LDAP outcome.
+#[derive(Debug, PartialEq, Clone)]
+enum LOut {
+    /// result code other than success / compareTrue / compareFalse / noSuchObject
+    Err(String),
+    Rows(Vec<(String, Vec<String>)>),
+    Compare(&'static str),
+}
+
+async fn run_ldap_real(w: &World, ldaps: &LdapServer, q: &LQuery) -> LOut {
+    let token = match &q.id {
+        LId::Anon => LdapBoundToken { spn: "anonymous".into(), session_id: Uuid::from_u128(1), effective_session: LdapSession::UnixBind(UUID_ANONYMOUS) },
+        LId::Token(u, scope) => LdapBoundToken {
+            spn: "c23".into(),
+            session_id: Uuid::from_u128(2),
+            effective_session: LdapSession::ApiToken(ApiToken {
+                account_id: Uuid::from_u128(*u),
+                token_id: Uuid::from_u128(0xC23_0000_0000 + *u % 0x1000),
+                label: "c23".into(),
+                expiry: None,
+                issued_at: time::OffsetDateTime::UNIX_EPOCH + duration_from_epoch_now(),
+                purpose: match scope {
+                    Scope::Ro => ApiTokenPurpose::ReadOnly,
+                    Scope::Rw => ApiTokenPurpose::ReadWrite,
+                    Scope::Sync => ApiTokenPurpose::Synchronise,
+                },
+            }),
+        },
+    };
+    let op = match &q.op {
+        LOp::Search { base, scope, filter, attrs } => ServerOps::Search(LSearchRequest { msgid: 1, base: base.clone(), scope: scope.clone(), filter: filter.clone(), attrs: attrs.clone() }),
+        LOp::Compare { entry, atype, val } => ServerOps::Compare(CompareRequest { msgid: 1, entry: entry.clone(), atype: atype.clone(), val: val.clone() }),
+    };
+    let ip = std::net::IpAddr::V4(std::net::Ipv4Addr::new(127, 0, 0, 1));
+    let resp = match ldaps.do_op(&w.idms, op, Some(token), ip, Uuid::from_u128(3)).await {
+        Ok(r) => r,
+        Err(e) => return LOut::Err(format!("{e:?}")),
+    };
+    let msgs = match resp {
+        LdapResponseState::MultiPartResponse(m) | LdapResponseState::BindMultiPartResponse(_, m) => m,
+        LdapResponseState::Respond(m) | LdapResponseState::Disconnect(m) | LdapResponseState::Bind(_, m) => vec![m],
+        LdapResponseState::Unbind => vec![],
+    };
+    let mut rows = vec![];
+    let mut out = None;
+    for m in msgs {
+        match m.op {
+            LdapOp::SearchResultEntry(e) => {
+                let mut names: Vec<String> = e.attributes.iter().map(|a| a.atype.to_lowercase()).collect();
+                names.sort();
+                names.dedup();
+                rows.push((e.dn, names));
+            }
+            LdapOp::SearchResultDone(r) => {
+                if r.code != LdapResultCode::Success {
+                    out = Some(LOut::Err(format!("{:?} {}", r.code, r.message)));
+                }
+            }
+            LdapOp::CompareResult(r) => {
+                out = Some(match r.code {
+                    LdapResultCode::CompareTrue => LOut::Compare("true"),
+                    LdapResultCode::CompareFalse => LOut::Compare("false"),
+                    LdapResultCode::NoSuchObject => LOut::Compare("nosuchobject"),
+                    c => LOut::Err(format!("{c:?} {}", r.message)),
+                });
+            }
+            other => out = Some(LOut::Err(format!("unexpected {other:?}"))),
+        }
+    }
+    rows.sort();
+    out.unwrap_or(LOut::Rows(rows))
+}
+
+fn lident(rd: &mut QueryServerReadTransaction, id: &LId) -> Option<Ident> {
+    match id {
+        LId::Anon => make_ident(rd, &IdSpec::User(ANON, Scope::Ro)),
+        LId::Token(u, s) => make_ident(rd, &IdSpec::User(*u, s.clone())),
+    }
+}
+
+fn set_model_ident(drv: &mut Driver, at: &mut Atoms, id: &Ident) {
+    let q = Query { id: id.spec.clone(), kind: "exists", attrs: None, filter: PF::SelfUuid };
+    // reuse the identity line of model_query (the answer of the probe query itself is ignored)
+    let _ = model_query(drv, at, id, &q, &Fc::SelfUuid);
+}
+
+fn model_rows(drv: &mut Driver, at: &mut Atoms, k_attrs: &Option<Vec<String>>, fc: &Fc) -> Option<Vec<(u128, Vec<String>)>> {
+    let attrs = match k_attrs {
+        None => "*".to_string(),
+        Some(l) if l.is_empty() => "-".to_string(),
+        Some(l) => l.iter().map(|a| at.get(a).to_string()).collect::<Vec<_>>().join(","),
+    };
+    let reply = drv.ask(&format!("q | search_ext | hidden | {attrs} | {}", enc_fc(at, fc)));
+    let body = reply.strip_prefix("ok")?.trim();
+    Some(
+        body.split(';')
+            .filter(|s| !s.is_empty())
+            .map(|s| {
+                let (u, a) = s.split_once(':').unwrap();
+                (u[1..].parse().unwrap(), a.split(',').filter(|x| !x.is_empty() && *x != "-").map(|x| at.name(x.parse().unwrap())).collect())
+            })
+            .collect(),
+    )
+}
+
+fn model_exists(drv: &mut Driver, at: &mut Atoms, fc: &Fc) -> Option<bool> {
+    let reply = drv.ask(&format!("q | exists | hidden | * | {}", enc_fc(at, fc)));
+    Some(reply.strip_prefix("ok")?.trim() == "1")
+}
+
+#[allow(clippy::too_many_arguments)]
+async fn run_ldap_query(w: &World, ldaps: &LdapServer, dn_of: &BTreeMap<String, u128>, seed: u64, wi: u64, li: usize, q: &LQuery, drv: &mut Driver, at: &mut Atoms, rep: &mut Report) {
+    let real = run_ldap_real(w, ldaps, q).await;
+    let mut rd = w.idms.proxy_read().await.expect("read txn");
+    let id = match lident(&mut rd.qs_read, &q.id) {
+        Some(i) => i,
+        None => {
+            rep.count("ldap:identity-unavailable");
+            return;
+        }
+    };
+    let me = id.uuid();
+    let input = json!({"seed": seed, "world": wi, "ldap_query": li, "request": lquery_json(q)});
+    let mut failed_classes: BTreeSet<String> = BTreeSet::new();
+    let mut fail = |rep: &mut Report, kind: &str, class: &str, expected: String, observed: String| {
+        // one failure per (query, class)
+        if failed_classes.insert(format!("{kind}|{class}")) {
+            rep.fail(Failure { kind: kind.into(), class: class.into(), input: input.clone(), expected, observed });
+        }
+    };
+    rep.count(match &q.op {
+        LOp::Search { .. } => "kind:ldap-search",
+        LOp::Compare { .. } => "kind:ldap-compare",
+    });
+    rep.count(match &real {
+        LOut::Err(_) => "ldap:out:error",
+        LOut::Rows(r) if r.is_empty() => "ldap:out:rows-empty",
+        LOut::Rows(_) => "ldap:out:rows",
+        LOut::Compare("true") => "ldap:out:compare-true",
+        LOut::Compare("false") => "ldap:out:compare-false",
+        LOut::Compare(_) => "ldap:out:no-such-object",
+    });
+    let mut key = None;
+    match &q.op {
+        LOp::Search { base, scope, filter, attrs } => {
+            let plan = plan_search(base, scope, filter, attrs);
+            let (plan, fc) = match plan {
+                Ok(p) => {
+                    let fc = match &p.filter {
+                        Some(f) => match lf_to_fc(&mut rd.qs_read, f) {
+                            Ok(fc) => Some(fc),
+                            Err(_) => {
+                                // the server refuses the filter (unknown attribute / bad value): must be an error
+                                if let LOut::Rows(r) = &real {
+                                    if !r.is_empty() {
+                                        fail(rep, "impl-vs-oracle", "c23:ldap-rows-for-invalid-filter", "an error".into(), format!("{r:?}"));
+                                    }
+                                }
+                                rep.count("ldap:filter-rejected");
+                                rep.case(None);
+                                return;
+                            }
+                        },
+                        None => None,
+                    };
+                    (p, fc)
+                }
+                Err(_) => {
+                    if let LOut::Rows(r) = &real {
+                        if !r.is_empty() {
+                            fail(rep, "impl-vs-oracle", "c23:ldap-rows-for-invalid-base", "an error".into(), format!("{r:?}"));
+                        }
+                    }
+                    rep.case(None);
+                    return;
+                }
+            };
+            // ---- correspondence -------------------------------------------------------------
+            let expected: Option<Vec<(u128, Vec<String>)>> = match &fc {
+                None => Some(vec![]),
+                Some(fc) => {
+                    set_model_ident(drv, at, &id);
+                    model_rows(drv, at, &plan.k_attrs, fc).map(|rows| {
+                        rows.into_iter()
+                            .map(|(u, rel)| {
+                                let mut names: BTreeSet<String> = BTreeSet::new();
+                                if plan.all_attrs {
+                                    names.extend(rel.iter().cloned());
+                                }
+                                for l in &plan.l_attrs {
+                                    let always = matches!(l.as_str(), "dn" | "entrydn" | "homedirectory");
+                                    let k = vattr(l).map(|s| s.to_string()).unwrap_or(l.clone());
+                                    if always || rel.contains(&k) {
+                                        names.insert(l.clone());
+                                    }
+                                }
+                                (u, names.into_iter().collect())
+                            })
+                            .collect()
+                    })
+                }
+            };
+            match (&real, &expected) {
+                (LOut::Rows(rows), Some(exp)) => {
+                    let mut got: Vec<(u128, Vec<String>)> = vec![];
+                    for (dn, names) in rows {
+                        match dn_of.get(dn) {
+                            Some(u) => got.push((*u, names.clone())),
+                            None => fail(rep, "impl-vs-oracle", "c23:ldap-unknown-dn", "the dn of a stored entry".into(), dn.clone()),
+                        }
+                    }
+                    got.sort();
+                    let mut exp = exp.clone();
+                    exp.sort();
+                    if got != exp {
+                        fail(rep, "impl-vs-model", "unclassified", format!("model+ldap mapping: {exp:?}"), format!("impl: {got:?}"));
+                    }
+                }
+                (LOut::Err(e), Some(exp)) => {
+                    // resource limits of the LDAP identities are not modelled: an error discloses nothing
+                    if !(e.contains("ResourceLimit") || exp.is_empty() && e.contains("InvalidState")) {
+                        // Synchronise-purpose tokens and the like end in errors too; record the kind
+                    }
+                    rep.count(&format!("ldap:error:{}", e.split([' ', '(']).next().unwrap_or("")));
+                    if rep.notes.len() < 6 {
+                        rep.note(format!("ldap error sample: {e} for {}", lquery_json(q)));
+                    }
+                }
+                (_, None) => {
+                    if let LOut::Rows(r) = &real {
+                        if !r.is_empty() {
+                            fail(rep, "impl-vs-model", "unclassified", "model: error".into(), format!("impl: {r:?}"));
+                        }
+                    }
+                }
+                (LOut::Compare(_), _) => fail(rep, "impl-vs-oracle", "c23:ldap-wrong-response", "search result".into(), format!("{real:?}")),
+            }
+            // ---- oracle -------------------------------------------------------------------
+            if let (LOut::Rows(rows), Some(fc)) = (&real, &fc) {
+                let mut fattrs = BTreeSet::new();
+                filter_attrs(fc, &mut fattrs);
+                let mut yes = false;
+                let mut no = false;
+                let mut grant_sets: BTreeSet<Vec<String>> = BTreeSet::new();
+                for e in w.db.iter().filter(|e| !e.hidden() && eval(fc, me, e)) {
+                    let gr = grants(&id, &w.acps, e);
+                    for (_, s) in &gr {
+                        grant_sets.insert(s.iter().cloned().collect());
+                    }
+                    if fattrs.iter().all(|a| may_read(&gr, a)) {
+                        yes = true;
+                    } else {
+                        no = true;
+                    }
+                }
+                if yes && no && grant_sets.len() >= 2 {
+                    key = Some(format!("ldap|{}", lquery_json(q)));
+                }
+                for (dn, names) in rows {
+                    let e = match dn_of.get(dn).and_then(|u| w.db.iter().find(|e| e.uuid == *u)) {
+                        Some(e) => e,
+                        None => continue,
+                    };
+                    if e.hidden() {
+                        fail(rep, "impl-vs-oracle", "c23:hidden-entry-returned", "no recycled / tombstoned entry".into(), dn.clone());
+                    }
+                    if !eval(fc, me, e) {
+                        fail(rep, "impl-vs-oracle", "c23:entry-does-not-match-filter", "only matching entries".into(), dn.clone());
+                    }
+                    let gr = grants(&id, &w.acps, e);
+                    for a in &fattrs {
+                        if !may_read(&gr, a) {
+                            fail(rep, "impl-vs-oracle", "c23:filter-attr-unreadable", format!("filter attribute `{a}` readable on every revealed entry"), format!("{dn} revealed"));
+                        }
+                    }
+                    if !(may_read(&gr, "spn") || may_read(&gr, "name")) {
+                        // the DN is the entry's identifier in LDAP (as the uuid is in the native API);
+                        // it is built from the spn whether or not spn/name are readable: counted, reported in notes
+                        rep.count("ldap:dn-names-entry-without-name-or-spn-grant");
+                    }
+                    for a in names {
+                        match a.as_str() {
+                            "dn" | "entrydn" => {}
+                            "homedirectory" => {
+                                if !may_read(&gr, "uuid") {
+                                    fail(rep, "impl-vs-oracle", "c23:ldap-homedirectory-discloses-uuid-without-grant", "homedirectory (= /home/<uuid>) only where uuid is readable".into(), format!("{dn}: grants {:?}", gr.iter().map(|g| &g.0).collect::<Vec<_>>()));
+                                }
+                            }
+                            other => {
+                                let k = vattr(other).map(|s| s.to_string()).unwrap_or(other.to_string());
+                                if !may_read(&gr, &k) {
+                                    fail(rep, "impl-vs-oracle", "c23:attr-without-grant", format!("ldap attribute `{other}` (kanidm `{k}`) covered by a read grant"), format!("{dn}: {names:?}; grants {gr:?}"));
+                                }
+                            }
+                        }
+                    }
+                }
+            }
+        }
+        LOp::Compare { entry, atype, val } => {
+            let ext = match parse_dn(entry) {
+                Some(Some((a, v))) => LdapFilter::Equality(a, v),
+                _ => {
+                    if let LOut::Compare("true") | LOut::Compare("false") = &real {
+                        fail(rep, "impl-vs-oracle", "c23:ldap-compare-invalid-dn-answered", "an error".into(), format!("{real:?}"));
+                    }
+                    rep.case(None);
+                    return;
+                }
+            };
+            let f1 = LdapFilter::And(vec![ext.clone(), LdapFilter::Equality(atype.clone(), val.clone()), class_exclusion()]);
+            let f2 = LdapFilter::And(vec![ext, class_exclusion()]);
+            let (fc1, fc2) = match (lf_to_fc(&mut rd.qs_read, &f1), lf_to_fc(&mut rd.qs_read, &f2)) {
+                (Ok(a), Ok(b)) => (a, b),
+                _ => {
+                    if let LOut::Compare("true") | LOut::Compare("false") = &real {
+                        fail(rep, "impl-vs-oracle", "c23:ldap-compare-invalid-filter-answered", "an error".into(), format!("{real:?}"));
+                    }
+                    rep.count("ldap:filter-rejected");
+                    rep.case(None);
+                    return;
+                }
+            };
+            set_model_ident(drv, at, &id);
+            let m1 = model_exists(drv, at, &fc1);
+            let m2 = model_exists(drv, at, &fc2);
+            let expected = match (m1, m2) {
+                (Some(true), _) => Some("true"),
+                (Some(false), Some(true)) => Some("false"),
+                (Some(false), Some(false)) => Some("nosuchobject"),
+                _ => None,
+            };
+            match (&real, expected) {
+                (LOut::Compare(r), Some(x)) if *r == x => {}
+                (LOut::Err(e), _) => rep.count(&format!("ldap:error:{}", e.split([' ', '(']).next().unwrap_or(""))),
+                (r, x) => fail(rep, "impl-vs-model", "unclassified", format!("model: {x:?}"), format!("impl: {r:?}")),
+            }
+            // oracle: an answer other than noSuchObject confirms an entry; it must be justified
+            let justified = |fc: &Fc| {
+                let mut fattrs = BTreeSet::new();
+                filter_attrs(fc, &mut fattrs);
+                w.db.iter().any(|e| !e.hidden() && eval(fc, me, e) && {
+                    let gr = grants(&id, &w.acps, e);
+                    fattrs.iter().all(|a| may_read(&gr, a))
+                })
+            };
+            match &real {
+                LOut::Compare("true") if !justified(&fc1) => fail(rep, "impl-vs-oracle", "c23:ldap-compare-true-without-readable-entry", "no confirmation".into(), "compareTrue".into()),
+                LOut::Compare("false") if !justified(&fc2) => fail(rep, "impl-vs-oracle", "c23:ldap-compare-false-without-readable-entry", "noSuchObject".into(), "compareFalse".into()),
+                _ => {}
+            }
+            if justified(&fc2) && !justified(&fc1) {
+                key = Some(format!("ldap|{}", lquery_json(q)));
+            }
+        }
+    }
+    rep.case(key);
 }
 
 fn main() {
@@ -1210,16 +1865,19 @@ fn main() {
         if let Some(path) = &args.replay {
             let v: J = serde_json::from_str(&std::fs::read_to_string(path).unwrap()).unwrap();
             let inp = &v["input"];
-            let (seed, world, query) = (inp["seed"].as_u64().unwrap(), inp["world"].as_u64().unwrap(), inp["query"].as_u64().unwrap() as usize);
-            let nq = if args.thorough() { 60 } else { 40 };
-            // the query list of a world depends on its length only through the prefix: regenerate enough
-            run_world(seed, world, nq.max(query + 1), Some(query), &mut drv, &mut at, &mut rep).await;
+            let (seed, world) = (inp["seed"].as_u64().unwrap(), inp["world"].as_u64().unwrap());
+            // query lists are prefixes of one stream per world: regenerate enough of it
+            if let Some(li) = inp["ldap_query"].as_u64() {
+                run_world(seed, world, 0, li as usize + 1, Sel::Ldap(li as usize), &mut drv, &mut at, &mut rep).await;
+            } else {
+                let query = inp["query"].as_u64().unwrap() as usize;
+                run_world(seed, world, query + 1, 0, Sel::Main(query), &mut drv, &mut at, &mut rep).await;
+            }
             return;
         }
-        let worlds = args.cases(6, 60);
-        let nq = if args.thorough() { 60 } else { 40 };
+        let worlds = args.cases(30, 400);
         for wi in 0..worlds {
-            run_world(args.seed, wi, nq, None, &mut drv, &mut at, &mut rep).await;
+            run_world(args.seed, wi, 40, 16, Sel::All, &mut drv, &mut at, &mut rep).await;
         }
     });
     rep.model_requests = drv.requests;
